@@ -743,3 +743,25 @@ MUTANTS.append({"id": "c09-neutral-overlap-rewritten", "prop": "C09", "expect": 
      "new": "        if (ux <= vx && getMaxX() > r->getMinX())\n            return -(r->getMinX() - getMaxX());", "count": 1},
     {"file": "cola/libvpsc/rectangle.h", "old": "        if (uy <= vy && r->getMinY() < getMaxY()) {\n            return getMaxY() - r->getMinY();",
      "new": "        if (uy <= vy && getMaxY() > r->getMinY()) {\n            return -(r->getMinY() - getMaxY());", "count": 1}]})
+
+# ---------------------------------------------------------------- C19 round c
+M("c19-planarise-drops-bendless-ghosts", "C19", "cola/libdialect/planarise.cpp",
+  "    for (auto pair : m_givenGraph->getNodeLookup()) {\n        Node_SP &u = pair.second;\n",
+  "    for (auto pair : m_givenGraph->getNodeLookup()) {\n        Node_SP &u = pair.second;\n        if (u->getDegree() == 0) continue;\n", mention=["PLANARISE-COVERAGE"])
+M("c19-side-tree-bounds-wrong-component", "C19", "cola/libdialect/trees.cpp",
+  "                        tb = t->m_boundsByRank[r-1][a];\n                        m_boundsByRank[r][a] = tb;",
+  "                        tb = t->m_boundsByRank[r-1][a];\n                        m_boundsByRank[r][a] = t->m_boundsByRank[r-1][b];", mention=["SIBLING-TREES-APART"])
+M("c19-side-tree-rank-offset", "C19", "cola/libdialect/trees.cpp",
+  "                    double candidate = getBounds(r + 1, nodeSep)[a] - t->getBounds(r, nodeSep)[b];",
+  "                    double candidate = getBounds(r, nodeSep)[a] - t->getBounds(r, nodeSep)[b];", mention=["SIBLING-TREES-APART"])
+M("c19-neutral-central-bounds-inline", "C19", "cola/libdialect/trees.cpp",
+  "                    auto tb = t->m_boundsByRank[r-1];\n                    double tlb = tb[0], tub = tb[1];",
+  "                    double tlb = t->m_boundsByRank[r-1][0], tub = t->m_boundsByRank[r-1][1];", expect="silent")
+M("c19-short-segment-opened-after-close", "C19", "cola/libdialect/planarise.cpp",
+  "                if (closedInPart.count(evt->companion) > 0) break;\n", "", mention=["CROSSINGS-EXACT"])
+M("c19-straight-edge-keeps-old-bends", "C19", "cola/libdialect/graphs.cpp",
+  "            e->setBendNodes(Nodes());\n            continue;", "            continue;", mention=["ROUTE-CLEARS-BENDS", "buildUniqueBendPoints"])
+M("c19-crossing-skipped-when-vertical-open", "C19", "cola/libdialect/planarise.cpp",
+  "                if (openV != nullptr) {\n                    // There is also an open vertical segment, so we have an intersection.",
+  "                if (openV != nullptr && openH.size() < 1) {\n                    // There is also an open vertical segment, so we have an intersection.",
+  mention=["CROSSINGS-EXACT"])
